@@ -129,12 +129,18 @@ def path_sessions(tier, rng):
         out.append(st)
     # state that names a location survives only as long as the login it was formed under: a pending RNFR, the working
     # directory and a parked transfer across USER (same user, other user with another base directory, unknown user)
-    for first, second in (("u2", "u1"), ("u1", "u2"), ("u2", "u2"), ("u2", "anonymous"), ("anonymous", "u2")):
+    for first, second in (("u2", "u1"), ("u1", "u2"), ("u2", "u2"), ("u2", "anonymous"), ("anonymous", "u2"), ("u1", "anonymous"), ("anonymous", "u1")):
         lg = lambda u: [["send", 1, "USER " + u]] + ([["send", 1, "PASS pw1"]] if u == "u1" else [])
         for src in ("f", "/f", "h/f", "/h/f", "pub", "d/g"):
             for dst in ("y", "/y", "../y", "h/y", "d/y"):
                 out.append([["connect", 1]] + lg(first) + [["send", 1, "RNFR " + src]] + lg(second) + [["send", 1, "RNTO " + dst], ["send", 1, "PWD"],
                            ["send", 1, "MLST " + dst], ["send", 1, "RNFR " + src], ["send", 1, "RNTO " + dst]])
+        # the very same request again as the first thing the next login does (from the same working directory, if the homes agree)
+        for cmd in ("MLST pub", "MLST f", "MLST /f", "DELE f", "MKD q", "CWD d", "RNFR f", "MLST /h/f", "MLST h/f", "DELE /h/f", "MLST ."):
+            out.append([["connect", 1]] + lg(first) + [["send", 1, cmd]] + lg(second) + [["send", 1, cmd], ["send", 1, "PWD"], ["send", 1, cmd]])
+        for verb, arg in (("RETR", "f"), ("RETR", "pub"), ("STOR", "zz"), ("LIST", ""), ("MLSD", "/h"), ("RETR", "/h/f")):
+            out.append([["connect", 1]] + lg(first) + gen.transfer(1, verb, arg, data=[5] if verb == "STOR" else None) + lg(second)
+                       + gen.transfer(1, verb, arg, data=[6, 6] if verb == "STOR" else None) + [["send", 1, "PWD"]])
         for cwd in ("h", "d", "d/e"):
             out.append([["connect", 1]] + lg(first) + [["send", 1, "CWD " + cwd], ["send", 1, "PWD"]] + lg(second) + [["send", 1, "PWD"], ["send", 1, "MLST f"],
                        ["send", 1, "MKD zz"], ["send", 1, "DELE f"]])
